@@ -264,6 +264,11 @@ def run(ctx):
             ctx.violation(f"spec:{name}:{r.violated}", f"StreamDatum.tla ({name}) invariant {r.violated} violated on the specification itself: "
                           f"par={st.get('par')} docs={st.get('docs')}", {"tlc_trace": str(r.trace)[:2000]})
             return
+    if not ctx.quick:      # the finding's signature must stay reachable in the model (violated on purpose)
+        rk = run_tlc("StreamDatum", "StreamDatum_kfreach.cfg", spec_dir=SD, tag="C36k", timeout=600, java_opts=J, workers=2)
+        ctx.add_tlc(rk, "reachability of the finding's signature in the model")
+        if rk.ok:
+            ctx.note("the scalar / per-datum signature is no longer reachable in StreamDatum.tla")
     ctx.cov["exhaustive"] = True
     ctx.rule = ("concat: every sequence of datums of the bounded domain (any order, repeats, one foreign descriptor/resource) replayed on "
                 "concatenate_stream_datums; cons: every (join, join_chunks, descriptor shape, chunk_shape, multiplier, consumed datums) replayed on "
